@@ -107,3 +107,22 @@ def neighbours(seqs, rng, n, min_tokens=2, valid=None):
             continue
         out.append([" ".join(a), " ".join(v), " ".join(a)])
     return out
+
+
+def carry_pairs(rng, n=8):
+    """operand pairs (a, b) whose limbs — in the canonical AND in the Montgomery representation — add up to exactly 2^64 - 1 in one
+    limb while the limb below produces a carry (and the analogous borrow pattern): where a hand-written multi-limb add / sub loses
+    a carry. Returned as canonical field elements."""
+    out = []
+    W = 2**64
+    for _ in range(n):
+        for j in (1, 2):                               # the limb whose sum is all ones, with a carry coming from limb j-1
+            A = [rng.randrange(W) for _ in range(4)]
+            B = [rng.randrange(W) for _ in range(4)]
+            B[j - 1] = (W - A[j - 1] + rng.randrange(1, 1000)) % W if A[j - 1] else rng.randrange(W)   # A[j-1] + B[j-1] >= 2^64
+            B[j] = (W - 1 - A[j]) % W                                                                  # A[j] + B[j] = 2^64 - 1
+            A[3] %= 2**60; B[3] %= 2**60                                                               # both below p
+            a, b = _of_limbs(A) % P, _of_limbs(B) % P
+            out.append((a, b))                                        # canonical limbs have the pattern
+            out.append(((a * _RINV) % P, (b * _RINV) % P))            # the MONTGOMERY forms (x * R mod p) have the pattern
+    return out
